@@ -112,6 +112,9 @@ func runC09(run *Run, replay string) {
 			}
 		}
 		walk(nil, ts)
+		if sc.Kind == "tf" {
+			elemRangeOracle(run, sc, ts, loc)
+		}
 		blockAddrCases(run, sc, 8)
 		// ---- ground truth
 		if cfg != nil {
@@ -183,6 +186,7 @@ func runC10(run *Run, replay string) {
 			continue
 		}
 		os := res.Val.(reference.Origins)
+		collectOriginsCase(run, sc, os)
 		loc := map[string]interface{}{"seed": run.Res.Seed, "config": i, "src": string(sc.Src)}
 		q := Query{Name: "CollectReferenceOrigins"}
 		if len(cfg.Refs) >= 2 {
